@@ -1,10 +1,10 @@
 """Fail-closed `ast` translator of the PSD classes' pipelines (DESIGN.md 2.3(b), Appendix A).
 
 For every PSD class (Periodogram, pcorrelogram, pburg, pyule, pcovar, pmodcovar, parma, pma, pminvar,
-pmusic, pev, MultiTapering) it reads `__call__` / `__init__` and extracts
+pmusic, pev, MultiTapering, pdaniell) it reads `__call__` / `__init__` and extracts
 
   * the parameter estimator (arburg, aryule, ...) and the functional estimator producing the PSD array
-    (speriodogram, CORRELOGRAMPSD, arma2psd, minvar, eigen, pmtm), with the attribute every parameter is fed from,
+    (speriodogram, CORRELOGRAMPSD, arma2psd, minvar, eigen, pmtm, DaniellPeriodogram), with the attribute every parameter is fed from,
   * what reaches the functional estimator's `scale_by_freq` and `sampling`/`T` parameters, and -- read off the
     functional estimator's own source -- whether it applies 2*pi/df itself and how its value depends on the sampling,
   * the attributes stored besides `psd`, the real-data slice and doubling, flips, the complex-data store,
@@ -28,16 +28,17 @@ class Fail(Exception):
 CLASSES = [('Periodogram', 'periodogram.py'), ('pcorrelogram', 'correlog.py'), ('pburg', 'burg.py'),
            ('pyule', 'yulewalker.py'), ('pcovar', 'covar.py'), ('pmodcovar', 'modcovar.py'),
            ('parma', 'arma.py'), ('pma', 'arma.py'), ('pminvar', 'minvar.py'), ('pmusic', 'eigenfre.py'),
-           ('pev', 'eigenfre.py'), ('MultiTapering', 'mtm.py')]
+           ('pev', 'eigenfre.py'), ('MultiTapering', 'mtm.py'), ('pdaniell', 'periodogram.py')]
 COQ_CLS = {'Periodogram': 'Periodogram', 'pcorrelogram': 'Pcorrelogram', 'pburg': 'Pburg', 'pyule': 'Pyule',
            'pcovar': 'Pcovar', 'pmodcovar': 'Pmodcovar', 'parma': 'Parma', 'pma': 'Pma', 'pminvar': 'Pminvar',
-           'pmusic': 'Pmusic', 'pev': 'Pev', 'MultiTapering': 'MultiTapering'}
+           'pmusic': 'Pmusic', 'pev': 'Pev', 'MultiTapering': 'MultiTapering', 'pdaniell': 'Pdaniell'}
 # functional estimators (produce the PSD array) and where they are defined
 FESTIM = {'speriodogram': ('periodogram.py', 'FSperiodogram'), 'CORRELOGRAMPSD': ('correlog.py', 'FCorrelogrampsd'),
           'arma2psd': ('arma.py', 'FArma2psd'), 'minvar': ('minvar.py', 'FMinvar'),
-          'eigen': ('eigenfre.py', 'FEigen'), 'pmtm': ('mtm.py', 'FPmtm')}
+          'eigen': ('eigenfre.py', 'FEigen'), 'pmtm': ('mtm.py', 'FPmtm'), 'DaniellPeriodogram': ('periodogram.py', 'FDaniell')}
 # which element of the functional estimator's return value is the PSD-like array
-FESTIM_RESULT = {'speriodogram': None, 'CORRELOGRAMPSD': None, 'arma2psd': None, 'minvar': 0, 'eigen': 0, 'pmtm': 0}
+FESTIM_RESULT = {'speriodogram': None, 'CORRELOGRAMPSD': None, 'arma2psd': None, 'minvar': 0, 'eigen': 0, 'pmtm': 0,
+                 'DaniellPeriodogram': 0}
 PARAM_EST = {'arburg': 'burg.py', 'aryule': 'yulewalker.py', 'arcovar': 'covar.py', 'modcovar': 'modcovar.py',
              'arma_estimate': 'arma.py', 'ma': 'arma.py'}
 BASES = {'FourierSpectrum': 'BFourier', 'ParametricSpectrum': 'BParametric', 'Spectrum': 'BSpectrum'}
@@ -208,6 +209,34 @@ def analyse_festim(src, fname):
             raise Fail('minvar: return value is not (PSD, ...)')
         if any(isinstance(n, ast.Attribute) and n.attr == 'pi' for n in ast.walk(fdef)) or _names_used(fdef, ('scale_by_freq', 'df')):
             raise Fail('minvar: pi / scale_by_freq / df is used')
+    elif fname == 'DaniellPeriodogram':
+        # a linear smoothing of speriodogram(...): sampling / scale_by_freq are handed through unchanged and are
+        # otherwise used only for the second return value (the frequency vector)
+        if 'sampling' not in params or 'scale_by_freq' not in params:
+            raise Fail('DaniellPeriodogram: parameters sampling / scale_by_freq expected')
+        info['flag_param'] = 'scale_by_freq'; info['samp_param'] = 'sampling'
+        first = body[0]
+        if not (isinstance(first, ast.Assign) and nospace(first.targets[0]) == 'psd' and isinstance(first.value, ast.Call) and nospace(first.value.func) == 'speriodogram'):
+            raise Fail('DaniellPeriodogram: does not start with psd = speriodogram(...)')
+        kws = dict((k.arg, nospace(k.value)) for k in first.value.keywords)
+        if [nospace(a) for a in first.value.args] != ['data'] or any(kws.get(k) != k for k in ('NFFT', 'sampling', 'scale_by_freq')):
+            raise Fail('DaniellPeriodogram: NFFT / sampling / scale_by_freq are not handed through to speriodogram')
+        allowed = set(id(n) for n in ast.walk(first))
+        for st in ast.walk(fdef):
+            if isinstance(st, ast.Assign) and len(st.targets) == 1 and nospace(st.targets[0]) in ('freq', 'df') and st is not first:
+                allowed |= set(id(n) for n in ast.walk(st))
+        stray = [n for n in _names_used(fdef, ('sampling', 'scale_by_freq', 'df')) if id(n) not in allowed]
+        if stray:
+            raise Fail('DaniellPeriodogram: sampling/scale_by_freq/df used in an unrecognised position (line %d)' % stray[0].lineno)
+        if any(isinstance(n, ast.Attribute) and n.attr == 'pi' for n in ast.walk(fdef)):
+            raise Fail('DaniellPeriodogram: pi is used')
+        if not (isinstance(body[-1], ast.Return) and nospace(body[-1].value).lstrip('(').startswith('newpsd,')):
+            raise Fail('DaniellPeriodogram: return value is not (newpsd, ...)')
+        ret_ids = set(id(n) for n in ast.walk(body[-1]))
+        if any(isinstance(n.ctx, ast.Load) and id(n) not in ret_ids for n in _names_used(fdef, ('freq', 'df'))):
+            raise Fail('DaniellPeriodogram: freq / df feed back into the spectrum')
+        inner = analyse_festim(src, 'speriodogram')
+        info['fscale'] = inner['fscale']; info['fsamp'] = inner['fsamp']
     else:
         for bad in ('sampling', 'scale_by_freq', 'T', 'df'):
             if bad in params and not (fname == 'pmtm' and bad == 'T'):
@@ -332,6 +361,9 @@ class _CallWalker:
     def store_kind(self, v):
         if self.is_raw(v):
             return 'SAsIs'
+        if self.result_holder and isinstance(v, ast.Subscript) and isinstance(v.value, ast.Name) and v.value.id == self.result_holder[0] \
+                and isinstance(v.slice, ast.Constant) and v.slice.value == self.result_holder[1]:
+            return 'SAsIs'        # self.psd = res[0]
         if isinstance(v, ast.Name) and v.id in self.half:
             he, ho, k = self.half[v.id]
             return 'SHalf %s %s %d false' % (he, ho, k)
